@@ -17,7 +17,7 @@ import (
 	"verif/harness/sm"
 )
 
-const ruleC04 = "a generated state (seed batch, optional indexes, 0-6 further writes) and one operation under test of every kind (Insert batches, Save, ReplaceById, UpdateById, Update/UpdateFunc with and without sort/skip/limit, Delete, DeleteById, Create/DropCollection, Create/DropIndex, ImportCollection, CreateCollectionByQuery, ExportCollection and all reads), on bbolt and badger. (i) invalid input: duplicate/malformed _id at any batch position (incl. position 1000+ of batches of 1001-2500 documents), criteria operands that cannot be normalised, invalid update results, missing/existing collection/index/document: when the call returns an error the raw key/value dump of the undecorated store must equal the dump before the call. (ii) store faults: a dry run on a clone gives the number M of fallible store calls (begin, get, set, delete, cursor item, commit) the operation makes; for each chosen position k <= M (quick: at most 40 spread evenly with both ends; thorough: every k up to 3000) the k-th call fails: the call must return an error, the dump must be unchanged (values compared decoded when bytes differ). Afterwards a CreateCollection + Insert on the same handle must succeed within the deadline and the un-faulted operation must behave as the model says. An evaluation is one faulted (or invalid) run; non-trivial when the failing call comes after at least one successful Set/Delete of the same operation, or the offending document is at batch position >= 1; distinct = distinct (state, operation, k)."
+const ruleC04 = "a generated state (seed batch, optional indexes, 0-6 further writes) and one operation under test of every kind (Insert batches, Save, ReplaceById, UpdateById, Update/UpdateFunc with and without sort/skip/limit, Delete, DeleteById, Create/DropCollection, Create/DropIndex, ImportCollection, CreateCollectionByQuery, ExportCollection and all reads), on bbolt and badger. (i) invalid input: duplicate/malformed _id at any batch position (incl. position 1000+ of batches of 1001-2500 documents), criteria operands that cannot be normalised, invalid update results, missing/existing collection/index/document: when the call returns an error the raw key/value dump of the undecorated store must equal the dump before the call. (ii) store faults: a dry run on a clone gives the number M of fallible store calls (begin, get, set, delete, cursor item, commit) the operation makes; for each chosen position k <= M (quick: at most 40 spread evenly with both ends; thorough: every k up to 400, evenly spread beyond) the k-th call fails: the call must return an error, the dump must be unchanged (values compared decoded when bytes differ). Afterwards a CreateCollection + Insert on the same handle must succeed within the deadline and the un-faulted operation must behave as the model says. An evaluation is one faulted (or invalid) run; non-trivial when the failing call comes after at least one successful Set/Delete of the same operation, or the offending document is at batch position >= 1; distinct = distinct (state, operation, k)."
 
 type c04Case struct {
 	Backend string  `json:"backend"`
@@ -37,7 +37,7 @@ func c04Profile() *sm.Profile {
 		BadIds:      true,
 		BadDocs:     true,
 		Crit:        gen.CritEnv{Val: gen.ValCfg{MaxDepth: 0}, MaxDepth: 2, NoFunc: true, Bad: true},
-		Weights: []sm.W{{Kind: "biginsert", Weight: 1}, {Kind: "createcoll", Weight: 4}, {Kind: "dropcoll", Weight: 5}, {Kind: "insert", Weight: 16}, {Kind: "insertone", Weight: 2},
+		Weights: []sm.W{{Kind: "biginsert", Weight: 1}, {Kind: "bigimport", Weight: 1}, {Kind: "createcoll", Weight: 4}, {Kind: "dropcoll", Weight: 5}, {Kind: "insert", Weight: 16}, {Kind: "insertone", Weight: 2},
 			{Kind: "save", Weight: 5}, {Kind: "replace", Weight: 6}, {Kind: "updatebyid", Weight: 7}, {Kind: "update", Weight: 10},
 			{Kind: "updatefunc", Weight: 10}, {Kind: "delete", Weight: 8}, {Kind: "deletebyid", Weight: 6}, {Kind: "createindex", Weight: 8},
 			{Kind: "dropindex", Weight: 6}, {Kind: "import", Weight: 7}, {Kind: "createbyquery", Weight: 7}, {Kind: "export", Weight: 3},
@@ -169,8 +169,8 @@ func init() {
 
 func TestC04(t *testing.T) {
 	col := collector("C04", ruleC04)
-	maxPos := ev.Scale(40, 3000)
-	check(t, "C04", cases(600, 6000), 0, func(rt *rapid.T) {
+	maxPos := ev.Scale(40, 400)
+	check(t, "C04", cases(600, 3000), 0, func(rt *rapid.T) {
 		backend := rapid.SampledFrom([]string{run.Bbolt, run.Bbolt, run.BadgerMem}).Draw(rt, "backend")
 		p := c04Profile()
 		s, err := c04Session(backend)
